@@ -64,6 +64,9 @@ Q = {
     "tmo-f111":     cfg("TMoveOnly", 2, 1, 8, 1, 1, 1),
     # allocator size_type narrower than int: every size computation in the header goes through integer promotion and back
     # (uint16_t: max_size() 65535/sizeof(T) is far above anything a history reaches, so the model needs no limit awareness)
+    # over-aligned (alignas 64), 64-byte element: alignment of the inline buffer and of allocator blocks (probe.data-misaligned, UBSan alignment)
+    "tal-l000":     cfg("TAlign", 1, 2, 5),
+    "tal-std":      cfg("TAlign", 0, 3, 1),
     "tnx-l000-u16": dict(cfg("TNx", 1, 2, 5), SV_SIZET="std::uint16_t"),
     "int-l101-u16": dict(cfg("int", 1, 0, 4, 1, 0, 1), SV_SIZET="std::uint16_t"),
     "tthrow-f011-u16": dict(cfg("TThrow", 2, 3, 1, 0, 1, 1), SV_SIZET="std::uint16_t"),
@@ -83,7 +86,7 @@ def thorough_matrix():
     i = 0
     for fi, f in enumerate(flavours):
         out["%s-std" % f] = cfg(f, 0, *npairs[fi % len(npairs)])
-    for k in ("tnx-f000", "int-f101", "tthrow-f011", "tmo-f111", "tnx-l000-u16", "int-l101-u16", "tthrow-f011-u16"):
+    for k in ("tnx-f000", "int-f101", "tthrow-f011", "tmo-f111", "tnx-l000-u16", "int-l101-u16", "tthrow-f011-u16", "tal-l000", "tal-std"):
         out[k] = Q[k]
     for combo in range(8):
         for ae in (0, 1):
@@ -231,7 +234,7 @@ def check_C01(tier, seed):
     if tier == "quick":
         for k in ("int-std", "tnx-l000", "tthrow-l000", "tco-l010", "tmo-l111", "tnx-f000", "tnx-l000-u16"):
             plan += shards(Q[k], "asan-dbg", ["--mode", "sweep", "--level", 0] + mon, 2)
-        for k in ("int-std", "tnx-l000", "tthrow-l000", "tthrow-std", "tmo-l111", "tco-l010", "tnx-l101ae", "tmot-l001", "int-l111", "tnx-f000", "int-f101", "tnx-l000-u16", "int-l101-u16"):
+        for k in ("int-std", "tnx-l000", "tthrow-l000", "tthrow-std", "tmo-l111", "tco-l010", "tnx-l101ae", "tmot-l001", "int-l111", "tnx-f000", "int-f101", "tnx-l000-u16", "int-l101-u16", "tal-l000", "tal-std"):
             plan.append(hist_run(Q[k], "asan-dbg", ["--mode", "random", "--cases", 600, "--len", 60, "--seed", seed] + mon))
         for k in ("int-std", "tnx-l000"):
             plan.append(hist_run(Q[k], "asan-rel", ["--mode", "random", "--cases", 1500, "--len", 60, "--seed", seed + 1] + mon))
@@ -273,7 +276,7 @@ def check_C02(tier, seed):
     mon = ["--monitors", "C02"]
     plan = []
     if tier == "quick":
-        for k in ("tnx-l000", "tthrow-l000", "tmo-l111", "tnx-l101", "int-std", "tnx-f000", "int-l101-u16"):
+        for k in ("tnx-l000", "tthrow-l000", "tmo-l111", "tnx-l101", "int-std", "tnx-f000", "int-l101-u16", "tal-l000", "tal-std"):
             plan += shards(Q[k], "asan-dbg", ["--mode", "sweep", "--level", 0] + mon, 2)
         for k in Q:
             plan.append(hist_run(Q[k], "asan-dbg", ["--mode", "random", "--focus", "alloc", "--cases", 500, "--len", 60, "--seed", seed] + mon))
@@ -303,7 +306,7 @@ def check_C03(tier, seed):
     tracked = [k for k in Q if Q[k]["SV_T"] != "int"]
     plan = []
     if tier == "quick":
-        for k in ("tnx-l000", "tthrow-l000", "tmo-l111", "tco-l010", "tnx-l000c", "tnx-f000"):
+        for k in ("tnx-l000", "tthrow-l000", "tmo-l111", "tco-l010", "tnx-l000c", "tnx-f000", "tal-std"):
             plan += shards(Q[k], "asan-dbg", ["--mode", "sweep", "--level", 0] + mon, 2)
         for k in tracked:
             plan.append(hist_run(Q[k], "asan-dbg", ["--mode", "random", "--cases", 500, "--len", 60, "--seed", seed] + mon))
@@ -332,7 +335,7 @@ def check_C04(tier, seed):
     mon = ["--monitors", "C04"]
     plan = []
     if tier == "quick":
-        for k in ("tnx-l000", "tthrow-l000", "tmo-l111", "tnx-l101", "int-std", "tthrow-l011", "tnx-f000"):
+        for k in ("tnx-l000", "tthrow-l000", "tmo-l111", "tnx-l101", "int-std", "tthrow-l011", "tnx-f000", "tal-l000"):
             plan += shards(Q[k], "asan-dbg", ["--mode", "sweep", "--level", 0] + mon, 2)
         for k in Q:
             plan.append(hist_run(Q[k], "asan-dbg", ["--mode", "random", "--focus", "alloc", "--cases", 400, "--len", 60, "--seed", seed] + mon))
